@@ -403,3 +403,23 @@ claim("C32",
       technique="bounded stand-in for contract verification: run-time checked contract on mechanically extracted real "
                 "functions over an exhaustively enumerated finite domain (stated bound); labelled bounded, not counted "
                 "as proved")
+
+
+claim("C19",
+      "BOUNDED STAND-IN, nothing is proved: get_by_path / set_by_path walk dynamically typed values with string "
+      "splitting and integer parsing, and get_state goes through pydantic's model_copy / JSON - outside the verifier's "
+      "statically typed, string-free encoding. The contract taken from the statement is checked at run time on the real "
+      "classes (InMemoryStateStore over DictState and over a typed model, SqliteStateStore from a real "
+      "SqliteWorkflowStore on a temporary file) over a complete enumeration of small operation sequences: (1) a state "
+      "obtained from get_state is a snapshot - editing its top-level keys / fields leaves the store unchanged until "
+      "set_state writes it back; (2) get / set by dotted path (intermediate dicts created as needed) and clear return "
+      "the values of a plain nested-dict model, for the in-memory and the SQLite store. Clause (1) failed on the "
+      "unchanged tree for the in-memory store over DictState and was repaired by fix 90804d2.",
+      "Bound: prefixes of at most two sets before the snapshot; operation sequences of length <= 2 (3 in the thorough "
+      "tier) over five paths and four JSON values, sampled in the quick tier; list indices in paths, nested typed "
+      "models, parent-type merges of set_state and edit_state are outside it. The lock discipline of these classes "
+      "(lost updates) is C20.",
+      category="exploration",
+      technique="bounded stand-in for contract verification: run-time checked contract on the real classes over an "
+                "exhaustively enumerated finite domain of operation sequences (stated bound); labelled bounded, not "
+                "counted as proved")
